@@ -16,11 +16,14 @@ HARNESSES = {
     'qs_seq': {'san': 'asan'},
     'parsers_fuzz': {'san': 'asan', 'cxxflags': ['-fno-sanitize=nonnull-attribute'], 'fuzz_raw': True},
     'printf_diff': {'san': 'asan', 'cxxflags': ['-fno-sanitize=nonnull-attribute']},
+    # the same harness on a platform where plain char is unsigned (aarch64, riscv, ...): %hhd/%c must not depend on it
+    'printf_diff_uchar': {'san': 'asan', 'source': 'printf_diff.cpp', 'cxxflags': ['-fno-sanitize=nonnull-attribute', '-funsigned-char', '-DVERIF_HARNESS_NAME="printf_diff_uchar"']},
     'rbtree_seq': {'san': 'asan'},
     'interval_seq': {'san': 'asan'},
     'pheap_seq': {'san': 'asan'},
     'slab_seq': {'san': 'asan'},
-    'slab_seq_track': {'san': 'asan', 'source': 'slab_seq.cpp', 'cxxflags': ['-DFRG_SLAB_TRACK_REGIONS']},
+    'slab_seq_track': {'san': 'asan', 'source': 'slab_seq.cpp', 'cxxflags': ['-DFRG_SLAB_TRACK_REGIONS', '-DVERIF_SLAB_VARIANTS=1', '-DVERIF_HARNESS_NAME="slab_seq_track"']},
+    'slab_seq_soft': {'san': 'asan', 'source': 'slab_seq.cpp', 'cxxflags': ['-DVERIF_SLAB_VARIANTS=4', '-DVERIF_HARNESS_NAME="slab_seq_soft"']},
     # basic_string memcpy()s from a null buffer with length 0 (default-constructed strings): no listed property
     # speaks about zero-length copies, so UBSan's nonnull-attribute check is off for this harness (DESIGN.md 2.3)
     'string_seq': {'san': 'asan', 'cxxflags': ['-fno-sanitize=nonnull-attribute']},
@@ -65,7 +68,7 @@ PROPS['C13'] = {
             'accessors, backward links and in_list flags). Non-trivial: the element count crossed a growth threshold and shrank again, or a '
             'copy/move/swap/assign between two non-empty containers happened (intrusive: a splice of two non-empty lists or a mid insert and '
             'mid erase); distinct = hash of the decoded history.',
-    'required_tags': ['kind-%d' % k for k in range(17)] + ['grew-then-shrank', 'pair-op-nonempty', 'splice-nonempty', 'sv-swap-inline-heap', 'sv-move-inline'],
+    'required_tags': ['kind-%d' % k for k in range(18)] + ['equal-but-not-bytewise', 'grew-then-shrank', 'pair-op-nonempty', 'splice-nonempty', 'sv-swap-inline-heap', 'sv-move-inline'],
     'min_cases': {'quick': 20000, 'thorough': 400000},
     'level_text': 'generated operation histories against std::vector/std::deque reference sequences, compared after every operation; held on everything generated',
     'level_note': 'trusts the std containers as reference, ASan+UBSan and the exact-size tracking allocator for the own-storage clause; the state of a moved-from container is not asserted, it is only required to stay readable',
@@ -177,17 +180,18 @@ PROPS['C18'] = {
     'assumptions': ['bit indices < N', 'bound > 0', 'strict weak order comparators'],
 }
 
-SLAB_GEN = ('first tape elements pick the policy configuration (8 size/alignment configurations: all defaults with unaligned map, defaults aligned, 16K slabs/9 '
+SLAB_GEN = ('first tape elements pick the policy configuration (10 size/alignment configurations: all defaults with unaligned map, defaults aligned, 16K slabs/9 '
             'buckets, 32K slabs with 3 objects of the largest class, 12K slab in a 64K superblock aligned and unaligned, 64K pages, 28K slab that is not a '
-            'multiple of its largest class; {cfgs}) and a fault plan, then a history of allocate / free / deallocate(requested|reported size) / realloc '
+            'multiple of its largest class, page = slab = superblock = 64K aligned and unaligned; {cfgs}) and a fault plan, then a history of allocate / free / deallocate(requested|reported size) / realloc '
             '(random, within the class, just leaving the class, shrinking, growing) / realloc(null,n) / realloc(p,0) / free(null) / get_size / churn phases '
             '(k blocks of one class allocated and freed in generated order for r rounds) / realloc chains; sizes from 0, class sizes +-1, the small/large '
             'threshold +-1, page multiples +-1, uniform small, up to 3 superblocks. The policy hands out never-reused addresses from one arena, logs every '
             'callback, fills fresh memory with 0xCD and ASan-poisons unmapped regions. ')
-def slab_runs(q, th, enum=False):
-    return [{'harness': 'slab_seq', 'quick': {'enum': enum, 'rc': rc(q, sizes=[60, 120, 250])}, 'thorough': {'enum': enum, 'rc': rc(th, sizes=[60, 120, 250, 500]), 'fuzz': {'seconds': 150}}},
+def slab_runs(q, th, enum=False, soft=False):
+    extra = [{'harness': 'slab_seq_soft', 'quick': {'enum': enum, 'rc': rc(q // 2, sizes=[60, 120, 250], workers=8)}, 'thorough': {'enum': enum, 'rc': rc(th // 2, sizes=[60, 120, 250], workers=10)}}] if soft else []
+    return extra + [{'harness': 'slab_seq', 'quick': {'enum': enum, 'rc': rc(q, sizes=[60, 120, 250])}, 'thorough': {'enum': enum, 'rc': rc(th, sizes=[60, 120, 250, 500]), 'fuzz': {'seconds': 150}}},
             {'harness': 'slab_seq_track', 'quick': {'rc': rc(q // 3, sizes=[60, 120], workers=6)}, 'thorough': {'rc': rc(th // 3, sizes=[60, 120, 250], workers=8)}}]
-CFG_TAGS = ['cfg-' + n for n in ('defaults/unaligned', 'defaults/aligned', 'slab16K/aligned/9', 'slab32K/unaligned/11', 'slab12K-sb64K/aligned/10', 'page64K/unaligned/13', 'slab28K-sb32K/aligned/11', 'slab12K-sb64K/unaligned/10')]
+CFG_TAGS = ['cfg-' + n for n in ('defaults/unaligned', 'defaults/aligned', 'slab16K/aligned/9', 'slab32K/unaligned/11', 'slab12K-sb64K/aligned/10', 'page64K/unaligned/13', 'slab28K-sb32K/aligned/11', 'slab12K-sb64K/unaligned/10', 'page64K-slab64K-sb64K/aligned/9', 'page64K-slab64K-sb64K/unaligned/9')]
 PROPS['C01'] = {
     'runs': slab_runs(900, 20000),
     'rule': SLAB_GEN.format(cfgs='without poison hooks') + 'Oracle after every call: the requested and the reported extent of the new block lie inside one currently mapped region, are disjoint from every '
@@ -233,7 +237,7 @@ PROPS['C03'] = {
 }
 PROPS['C04'] = {
     'level': 'fault_enumeration',
-    'runs': slab_runs(900, 20000, enum=True),
+    'runs': slab_runs(900, 20000, enum=True, soft=True),
     'rule': SLAB_GEN.format(cfgs='without poison hooks') + 'Fault plans: a random mask over the map-call ordinals (density 1/4), one failing ordinal, two failing ordinals; enumeration: for base '
             'histories with 2..26 map calls every single position and every pair of positions fails. Oracle: the call during which map returned 0 returns null; all live '
             'blocks keep address, reported size and contents, the mapped-region set and numUsedPages() are unchanged, no pool lock is held (instrumented mutex); the same '
@@ -305,7 +309,8 @@ PROPS['C08'] = {
 }
 
 PROPS['C19'] = {
-    'runs': [{'harness': 'printf_diff',
+    'runs': [{'harness': 'printf_diff_uchar', 'quick': {'rc': rc(15000, sizes=[30, 60], workers=6)}, 'thorough': {'rc': rc(100000, sizes=[30, 60, 120], workers=8)}},
+             {'harness': 'printf_diff',
               'quick': {'rc': rc(80000, sizes=[30, 60, 120])},
               'thorough': {'rc': rc(300000, sizes=[30, 60, 120, 200]), 'fuzz': {'seconds': 150}}}],
     'rule': 'printf: 1-3 directives from the grammar %[n$][flags][width|*][.prec|.*][hh|h|l|ll|z|t|j]{d,i,u,o,x,X}, %[n$][-][width|*][.prec|.*]{c,s}, %p, literal text '
